@@ -322,6 +322,29 @@ Proof.
   intros n' NE. exact (acme_nonce_bound hdr_enc hdr_dec R W alg jwk nonce n' content Wc NE).
 Qed.
 
+(* ECDH-ES family, decrypt side (ecDecrypterSigner.decryptKey): which header member feeds which KDF
+   field.  Exactly the four algorithm names of the family are accepted; PartyUInfo is the header's
+   apu and PartyVInfo its apv, AS GIVEN and in that order; direct agreement names the key by enc
+   and takes the content cipher's key size, the key-wrapping variants name it by alg with 16/24/32
+   bytes; and two headers that differ in apu or in apv hash different OtherInfo (so an object from
+   a producer that sets them decrypts only if both are used, each in its own field). *)
+Theorem c16_ecdh_kdf_plumbing :
+  (forall h ks, (exists p, ecdh_derive_input h ks = Ok p) <->
+     (eh_alg h = name_ECDH_ES \/ eh_alg h = name_ECDH_ES_A128KW \/ eh_alg h = name_ECDH_ES_A192KW \/
+      eh_alg h = name_ECDH_ES_A256KW)) /\
+  (forall h ks id u v n, ecdh_derive_input h ks = Ok (id, u, v, n) ->
+     u = eh_apu h /\ v = eh_apv h /\
+     ((eh_alg h = name_ECDH_ES /\ id = eh_enc h /\ n = ks) \/
+      (id = eh_alg h /\ ((eh_alg h = name_ECDH_ES_A128KW /\ n = 16) \/ (eh_alg h = name_ECDH_ES_A192KW /\ n = 24) \/
+                         (eh_alg h = name_ECDH_ES_A256KW /\ n = 32))))) /\
+  (forall alg enc u v u' v' ks oi,
+     lenN alg < 4294967296 -> lenN enc < 4294967296 ->
+     lenN u < 4294967296 -> lenN v < 4294967296 -> lenN u' < 4294967296 -> lenN v' < 4294967296 -> ks < 536870912 ->
+     ecdh_otherinfo {| eh_alg := alg; eh_enc := enc; eh_apu := u; eh_apv := v |} ks = Ok oi ->
+     ecdh_otherinfo {| eh_alg := alg; eh_enc := enc; eh_apu := u'; eh_apv := v' |} ks = Ok oi ->
+     u = u' /\ v = v').
+Proof. split; [exact ecdh_family_accepted|]. split; [exact ecdh_derive_input_spec|exact ecdh_otherinfo_injective]. Qed.
+
 (* ---------------------------------------------------------------- end to end, primitives idealised *)
 (* IDEALISATION (hypothesis ideal): under the right key exactly the produced (signing input,
    signature) pair verifies.  Then sign -> CompactSerialize -> ParseSigned -> Verify returns the
@@ -527,6 +550,7 @@ Print Assumptions c16_direct_key_management.
 Print Assumptions c16_fixed_width.
 Print Assumptions c16_thumbprint_template.
 Print Assumptions c16_kdf_layout.
+Print Assumptions c16_ecdh_kdf_plumbing.
 Print Assumptions c16_roundtrip_sym_jws.
 Print Assumptions c16_tamper_sym_jws.
 Print Assumptions c16_other_key_jws.
